@@ -33,17 +33,19 @@ class HyperLogLogWCache:
         self.M[j] = max(self.M[j], rho)
 
     def add(self, value):
-        if len(self.warmup_set) < self.warmup_size and not self.hll_flag:
-            self.warmup_set.add(value)
-        elif not self.hll_flag:
-            if not self.hll_flag:
-                self.M = np.zeros(self.m)
-                for element in self.warmup_set:
-                    self._hasher_update(element)
-                self.warmup_set = {}
+        if not self.hll_flag:
+            if value in self.warmup_set:
+                return
+            if len(self.warmup_set) < self.warmup_size:
+                self.warmup_set.add(value)
+                return
+            # a new value beyond the warm-up capacity: switch to the registers
+            self.M = np.zeros(self.m)
+            for element in self.warmup_set:
+                self._hasher_update(element)
+            self.warmup_set = {}
             self.hll_flag = True
-        else:
-            self._hasher_update(value)
+        self._hasher_update(value)
 
     def __len__(self):
         if self.hll_flag:
